@@ -28,14 +28,38 @@ func verifSyncClient() *Client {
 // boolean (a superset of every real behaviour, including a rogue authorized
 // server that signs arbitrary replies). Symbolic execution only; the native
 // replay below signs for real instead.
+var verifVerifyAccepts bool // the long-reply harness: every signature verifies
+
+// the authenticity harness records every signature check the client makes
+type verifVerifyCall struct {
+	pk   glow.PublicKey
+	sig  glow.Signature
+	data []byte
+	ok   bool
+}
+
+var verifVerifyRecord bool
+var verifVerifyLog []verifVerifyCall
+
 func verifStub_github_com_glowlabs_org_gca_backend_glow_Verify(pk glow.PublicKey, data []byte, sig glow.Signature) bool {
-	return verifFreshBool()
+	if verifVerifyAccepts {
+		return true
+	}
+	r := verifFreshBool()
+	if verifVerifyRecord {
+		verifVerifyLog = append(verifVerifyLog, verifVerifyCall{pk: pk, sig: sig, data: data, ok: r})
+	}
+	return r
 }
 
 // verifAuthenticate (native replay only): stamps the reply with the current
 // time and the contacted server's real signature, so that the outer checks of
 // staticServerSync pass and the code behind them is reached.
 func verifAuthenticate(stream []byte, priv glow.PrivateKey) {
+	verifAuthenticateAt(stream, priv, uint64(time.Now().Unix()))
+}
+
+func verifAuthenticateAt(stream []byte, priv glow.PrivateKey, t uint64) {
 	if len(stream) < 2+72 {
 		return
 	}
@@ -44,7 +68,7 @@ func verifAuthenticate(stream []byte, priv glow.PrivateKey) {
 		return
 	}
 	body := stream[2 : 2+n]
-	binary.LittleEndian.PutUint64(body[n-72:], uint64(time.Now().Unix()))
+	binary.LittleEndian.PutUint64(body[n-72:], t)
 	sig := glow.Sign(body[:n-64], priv)
 	copy(body[n-64:], sig[:])
 }
@@ -67,35 +91,42 @@ func verifH_C11_sync_reply_never_panics() {
 }
 
 // ---- the sync round: locking, server selection, ban monotonicity ----
+//
+// Symbolically, staticServerSync is replaced by a model with any outcome its
+// caller can see (its own conditions are the subject of the C10 harnesses);
+// the model also carries the selection obligations, because it observes which
+// server the round contacts. Natively (replay) every known server is a real
+// listener that signs the scripted reply with its own key.
 
-// Model of one sync attempt used by the round harnesses (symbolic execution
-// only): any outcome staticServerSync can have, as far as its caller can tell.
+type verifRoundReply struct {
+	offset     uint32
+	bitfield   [504]byte
+	newGCA     glow.PublicKey
+	newShortID uint32
+	servers    []server.AuthorizedServer
+}
+
 var verifSyncCalls int
-var verifSyncNames = []string{"sync0", "sync1", "sync2", "sync3", "sync4", "sync5"}
-var verifSyncOffsetEqualsLatest uint32
+var verifSyncFailFirst int // the first so many attempts fail
+var verifRound verifRoundReply
+var verifFailedKeys [6]glow.PublicKey
 
 func verifStub_github_com_glowlabs_org_gca_backend_client_Client_staticServerSync(c *Client, gcas GCAServer, gcasKey glow.PublicKey, gcaKey glow.PublicKey) (uint32, [504]byte, glow.PublicKey, uint32, []server.AuthorizedServer, error) {
-	name := verifSyncNames[verifSyncCalls]
+	idx := verifSyncCalls
 	verifSyncCalls++
-	var bitfield [504]byte
-	if verifBool(name + ".fails") {
-		return 0, bitfield, glow.PublicKey{}, 0, nil, errors.New("sync failed")
+	known, present := c.gcaServers[gcasKey]
+	verifAssert(present, "contacted_server_is_in_the_list")
+	verifAssert(!known.Banned, "server_known_to_be_banned_is_never_contacted")
+	for j := 0; j < idx; j++ {
+		verifAssert(verifFailedKeys[j] != gcasKey, "failed_server_not_retried_in_the_same_round")
 	}
-	verifHavoc(&bitfield, name+".bitfield")
-	var newGCA glow.PublicKey
-	if verifBool(name + ".migrates") {
-		verifHavoc(&newGCA, name+".newGCA")
+	verifAssert(verifLocksHeld() == 0, "no_lock_held_during_network_io")
+	if idx < verifSyncFailFirst {
+		verifFailedKeys[idx] = gcasKey
+		return 0, [504]byte{}, glow.PublicKey{}, 0, nil, errors.New("sync failed")
 	}
-	servers := make([]server.AuthorizedServer, 1)
-	verifHavoc(&servers[0].PublicKey, name+".srvKey")
-	servers[0].Banned = verifBool(name + ".srvBanned")
-	servers[0].Location = verifStr(name+".srvLoc", 2)
-	servers[0].TcpPort = verifU16(name + ".srvTcp")
-	n := verifInt(name + ".servers")
-	verifAssume(n >= 0 && n <= 1)
-	servers = servers[:n]
-	// the resend loop after a successful sync is C08's subject: keep it to one slot here
-	return verifSyncOffsetEqualsLatest, bitfield, newGCA, verifU32(name + ".newShortID"), servers, nil
+	r := verifRound
+	return r.offset, r.bitfield, r.newGCA, r.newShortID, r.servers, nil
 }
 
 func verifMuFree(c *Client) bool {
@@ -109,41 +140,276 @@ func verifMuFree(c *Client) bool {
 	return false
 }
 
-func verifH_C11_sync_round() {
-	verifEnableModel("Client_staticServerSync")
-	c := verifSyncClient()
-	c.staticHistoryOffset = 0
-	k1, _ := verifKeyPair("srv1")
-	k2, _ := verifKeyPair("srv2")
-	verifAssume(k1 != k2)
-	b1, b2 := verifBool("banned1"), verifBool("banned2")
-	two := verifBool("two_servers")
-	c.gcaServers[k1] = GCAServer{Banned: b1, Location: "127.0.0.1", TcpPort: 1}
-	if two {
-		c.gcaServers[k2] = GCAServer{Banned: b2, Location: "127.0.0.1", TcpPort: 1}
+// verifServeSigned (native): a listener that answers every sync request with
+// body, stamped with the current time and signed by priv.
+func verifServeSigned(body []byte, priv glow.PrivateKey, refuse bool) uint16 {
+	stream := make([]byte, 2+len(body))
+	stream[0], stream[1] = byte(len(body)), byte(len(body)>>8)
+	copy(stream[2:], body)
+	verifAuthenticate(stream, priv)
+	_, port := verifServe(stream, refuse)
+	return port
+}
+
+// verifReplyBody lays a reply out as documented (DESIGN.md appendix A.3), with real signatures.
+func verifReplyBody(own glow.PublicKey, r verifRoundReply, gcaPriv glow.PrivateKey) []byte {
+	b := make([]byte, 0, 1024)
+	b = append(b, own[:]...)
+	b = binary.LittleEndian.AppendUint32(b, r.offset)
+	b = append(b, r.bitfield[:]...)
+	mig := len(b)
+	b = append(b, r.newGCA[:]...)
+	b = binary.LittleEndian.AppendUint32(b, r.newShortID)
+	for _, as := range r.servers {
+		b = append(b, as.Serialize()...)
 	}
-	c.primaryServer = k1
-	verifTgBudget(100)
-	latest := verifU32("latest")
-	verifSyncOffsetEqualsLatest = latest
+	sb := append([]byte("EquipmentMigration"), own[:]...)
+	sb = append(sb, b[mig:]...)
+	sig := glow.Sign(sb, gcaPriv)
+	b = append(b, sig[:]...)
+	b = append(b, make([]byte, 72)...)
+	return b
+}
+
+type verifRoundSetup struct {
+	c                *Client
+	k1, k2           glow.PublicKey
+	p1, p2           glow.PrivateKey
+	gcaPriv          glow.PrivateKey
+	two, b1, b2      bool
+	e1, e2           GCAServer
+}
+
+func verifRoundClient() *verifRoundSetup {
+	u := &verifRoundSetup{}
+	c := &Client{staticBaseDir: verifTempDir()}
+	c.EventLog = glow.NewEventLogger(time.Hour, 1000, 100)
+	// Key bytes are only ever compared, copied and used as map keys by the
+	// code of the round, so the symbolic run fixes distinct constants (it
+	// keeps every map membership concrete); the native replay uses real keys.
+	if verifSymbolic() {
+		c.staticPubKey, c.gcaPubKey = glow.PublicKey{9}, glow.PublicKey{8}
+		u.k1, u.k2 = glow.PublicKey{1}, glow.PublicKey{2}
+		verifBound("keys", "distinct constants in the symbolic run (the round only compares and copies key bytes)")
+	} else {
+		c.staticPubKey, _ = verifKeyPair("own")
+		c.gcaPubKey, u.gcaPriv = verifKeyPair("gca")
+		u.k1, u.p1 = verifKeyPair("srv1")
+		u.k2, u.p2 = verifKeyPair("srv2")
+	}
+	c.shortID = verifU32("shortID")
+	c.gcaServers = make(map[glow.PublicKey]GCAServer)
+	cfg := verifCase("known_servers", 0, 7)
+	u.two, u.b1, u.b2 = cfg&1 != 0, cfg&2 != 0, cfg&4 != 0
+	u.c = c
 	hp := filepath.Join(c.staticBaseDir, HistoryFile)
 	if err := os.WriteFile(hp, []byte{0, 0, 0, 0}, 0644); err != nil {
 		panic(err)
 	}
 	verifAssume(c.loadHistory() == nil)
+	verifTgBudget(100)
+	return u
+}
+
+// install puts the known servers into the client's list; natively each is a real listener.
+func (u *verifRoundSetup) install(body []byte, refuse bool) {
+	port1, port2 := uint16(1), uint16(1)
+	if !verifSymbolic() {
+		port1 = verifServeSigned(body, u.p1, refuse)
+		port2 = verifServeSigned(body, u.p2, refuse)
+	}
+	u.e1 = GCAServer{Banned: u.b1, Location: "127.0.0.1", TcpPort: port1, UdpPort: 9}
+	u.e2 = GCAServer{Banned: u.b2, Location: "127.0.0.1", TcpPort: port2, UdpPort: 9}
+	u.c.gcaServers[u.k1] = u.e1
+	if u.two {
+		u.c.gcaServers[u.k2] = u.e2
+	}
+	u.c.primaryServer = u.k1
+	// the pre-state is one a restart would produce: the list on disk is the list in memory
+	raw, err := SerializeGCAServerMap(u.c.gcaServers)
+	if err != nil {
+		panic(err)
+	}
+	if err := os.WriteFile(filepath.Join(u.c.staticBaseDir, GCAServerMapFile), raw, 0644); err != nil {
+		panic(err)
+	}
+}
+
+// C11 (2),(3),(5): every outcome pattern of the five attempts, for every
+// configuration of known servers (one or two; banned or not): no lock is held
+// when the round returns, a server known to be banned (or one that already
+// failed in this round) is never contacted, nothing is held during network
+// I/O. Natively "fails" is a closed port.
+func verifH_C11_sync_round_failures() {
+	verifEnableModel("Client_staticServerSync")
+	u := verifRoundClient()
+	c := u.c
+	verifSyncFailFirst = verifCase("failing_attempts", 0, 5)
+	latest := verifU32("latest")
+	verifRound = verifRoundReply{offset: latest}
+	for i := range verifRound.bitfield {
+		verifRound.bitfield[i] = 0xff
+	}
+	var body []byte
+	if !verifSymbolic() {
+		body = verifReplyBody(c.staticPubKey, verifRound, u.gcaPriv)
+	}
+	// natively a server either always answers or always refuses
+	u.install(body, verifSyncFailFirst > 0)
+	pubBefore, idBefore := c.gcaPubKey, c.shortID
 
 	ok := c.threadedSyncWithServer(latest)
-	_ = ok
 
 	verifAssert(verifMuFree(c), "no_lock_held_when_sync_attempt_returns")
-	// knowledge that a server is banned is never lost
-	if b1 {
-		s, present := c.gcaServers[k1]
-		verifAssert(!present || s.Banned, "ban_of_server1_not_lost")
+	if verifSymbolic() {
+		usable := 0
+		if !u.b1 {
+			usable++
+		}
+		if u.two && !u.b2 {
+			usable++
+		}
+		verifAssert(ok == (verifSyncFailFirst < usable && verifSyncFailFirst < 5), "round_succeeds_iff_a_usable_server_answers")
+		verifAssert(verifSyncCalls <= 5, "at_most_five_attempts")
 	}
-	// a server known to be banned is never selected
-	if c.primaryServer == k2 && two {
-		verifAssert(!b2, "banned_server_never_selected")
+	s1, p1 := c.gcaServers[u.k1]
+	verifAssert(p1 && s1 == u.e1, "known_server_entry_unchanged_by_empty_reply")
+	verifAssert(c.gcaPubKey == pubBefore && c.shortID == idBefore, "identity_unchanged_without_migration")
+	verifReach("end")
+}
+
+// C11 (4) / C17 (client): what a successful reply may do to the client's list
+// and identity. The reply lists no server, a server the client already knows
+// (first or second), or a new one; with and without a migration order.
+func verifH_C11_sync_round_merge() {
+	verifEnableModel("Client_staticServerSync")
+	u := verifRoundClient()
+	c := u.c
+	verifSyncFailFirst = 0
+	latest := verifU32("latest")
+	r := verifRoundReply{offset: latest}
+	for i := range r.bitfield {
+		r.bitfield[i] = 0xff
+	}
+	listed := verifCase("listed_server", 0, 3)
+	migration := verifCase("migration", 0, 1) == 1
+	signer := u.gcaPriv
+	if migration {
+		if verifSymbolic() {
+			r.newGCA = glow.PublicKey{7}
+		} else {
+			r.newGCA, signer = verifKeyPair("newGCA")
+		}
+		r.newShortID = verifU32("newShortID")
+	}
+	var lk glow.PublicKey
+	if listed > 0 {
+		as := server.AuthorizedServer{Banned: verifCase("listed_banned", 0, 1) == 1, Location: string(verifBytesN("listed_location", 2)),
+			HttpPort: verifU16("listed_http"), TcpPort: verifU16("listed_tcp"), UdpPort: verifU16("listed_udp")}
+		switch listed {
+		case 1:
+			as.PublicKey = u.k1
+		case 2:
+			as.PublicKey = u.k2
+		default:
+			if verifSymbolic() {
+				as.PublicKey = glow.PublicKey{3}
+			} else {
+				as.PublicKey, _ = verifKeyPair("srv3")
+			}
+		}
+		lk = as.PublicKey
+		if !verifSymbolic() {
+			as.GCAAuthorization = glow.Sign(as.SigningBytes(), signer)
+		}
+		r.servers = []server.AuthorizedServer{as}
+	}
+	verifRound = r
+	var body []byte
+	if !verifSymbolic() {
+		body = verifReplyBody(c.staticPubKey, r, u.gcaPriv)
+	}
+	u.install(body, false)
+	usable := !u.b1 || (u.two && !u.b2)
+	pubBefore, idBefore := c.gcaPubKey, c.shortID
+
+	ok := c.threadedSyncWithServer(latest)
+
+	verifAssert(verifMuFree(c), "no_lock_held_when_sync_attempt_returns")
+	verifAssert(ok == usable, "round_succeeds_iff_a_usable_server_exists")
+	if !ok {
+		verifReach("no_usable_server")
+		return
+	}
+	var want GCAServer
+	if listed > 0 {
+		as := r.servers[0]
+		want = GCAServer{Banned: as.Banned, Location: as.Location, HttpPort: as.HttpPort, TcpPort: as.TcpPort, UdpPort: as.UdpPort}
+	}
+	s1, p1 := c.gcaServers[u.k1]
+	s2, p2 := c.gcaServers[u.k2]
+	if !migration {
+		verifAssert(c.gcaPubKey == pubBefore && c.shortID == idBefore, "identity_unchanged_without_migration")
+		// an existing entry is never altered except to become banned
+		if listed == 1 && want.Banned {
+			verifAssert(p1 && s1 == want, "listed_ban_of_known_server_is_adopted")
+		} else {
+			verifAssert(p1 && s1 == u.e1, "known_server_entry_unchanged")
+		}
+		if u.two {
+			if listed == 2 && want.Banned {
+				verifAssert(p2 && s2 == want, "listed_ban_of_known_server_is_adopted")
+			} else {
+				verifAssert(p2 && s2 == u.e2, "known_server_entry_unchanged")
+			}
+		}
+		if u.b1 {
+			verifAssert(p1 && s1.Banned, "knowledge_of_a_ban_is_never_lost")
+		}
+		if u.two && u.b2 {
+			verifAssert(p2 && s2.Banned, "knowledge_of_a_ban_is_never_lost")
+		}
+		if listed == 3 || (listed == 2 && !u.two) {
+			s3, p3 := c.gcaServers[lk]
+			verifAssert(p3 && s3 == want, "new_server_enters_as_listed")
+		}
+		n := 1
+		if u.two {
+			n++
+		}
+		if listed == 3 || (listed == 2 && !u.two) {
+			n++
+		}
+		verifAssert(len(c.gcaServers) == n, "nothing_else_enters_the_list")
+	} else {
+		verifAssert(c.gcaPubKey == r.newGCA && c.shortID == r.newShortID, "migration_adopts_the_new_identity")
+		n := 0
+		if listed > 0 {
+			n = 1
+			s3, p3 := c.gcaServers[lk]
+			verifAssert(p3 && s3 == want, "migration_adopts_exactly_the_listed_servers")
+		}
+		verifAssert(len(c.gcaServers) == n, "migration_adopts_exactly_the_listed_servers")
+		// what is on disk is what was adopted
+		pk, err := os.ReadFile(filepath.Join(c.staticBaseDir, GCAPubKeyFile))
+		verifAssert(err == nil && len(pk) == 32 && glow.PublicKey(pk) == r.newGCA, "persisted_gca_key_is_the_adopted_one")
+		id, err := os.ReadFile(filepath.Join(c.staticBaseDir, ShortIDFile))
+		verifAssert(err == nil && len(id) == 4 && binary.LittleEndian.Uint32(id) == r.newShortID, "persisted_short_id_is_the_adopted_one")
+	}
+	// the persisted list, read back the way a restart reads it, is the adopted list
+	raw, err := os.ReadFile(filepath.Join(c.staticBaseDir, GCAServerMapFile))
+	verifAssert(err == nil, "server_list_is_persisted")
+	back, err := UntrustedDeserializeGCAServerMap(raw)
+	verifAssert(err == nil, "persisted_server_list_decodes")
+	verifAssert(len(back) == len(c.gcaServers), "persisted_server_list_has_the_adopted_entries")
+	d1, q1 := back[u.k1]
+	d2, q2 := back[u.k2]
+	verifAssert(q1 == p1 && (!p1 || d1 == s1), "persisted_entry_equals_adopted_entry")
+	verifAssert(q2 == p2 && (!p2 || d2 == s2), "persisted_entry_equals_adopted_entry")
+	if listed == 3 {
+		d3, q3 := back[lk]
+		s3, p3 := c.gcaServers[lk]
+		verifAssert(q3 == p3 && (!p3 || d3 == s3), "persisted_entry_equals_adopted_entry")
 	}
 	verifReach("end")
 }
